@@ -238,6 +238,15 @@ system_flags = [
     r"\recent",
 ]
 
+_CANONICAL_SYSTEM_FLAGS = {
+    r"\answered": r"\Answered",
+    r"\flagged": r"\Flagged",
+    r"\deleted": r"\Deleted",
+    r"\seen": r"\Seen",
+    r"\draft": r"\Draft",
+    r"\recent": r"\Recent",
+}
+
 # The list of commands that can be called via 'UID'
 #
 uid_commands = ("copy", "fetch", "move", "search", "store", "expunge")
@@ -1966,6 +1975,12 @@ class IMAPClientCommand:
         # And what follows is always an atom.
         #
         flag += self._p_re(_atom_re)
+
+        # The system flags are case-insensitive. The rest of the server knows
+        # them by their canonical spelling.
+        #
+        if flag.lower() in _CANONICAL_SYSTEM_FLAGS:
+            return _CANONICAL_SYSTEM_FLAGS[flag.lower()]
 
         return flag
 
